@@ -1,6 +1,7 @@
 import JetVerif.Props.C05
 import JetVerif.Props.C05P
 import JetVerif.Props.C05E
+import JetVerif.Props.C05R
 open JetVerif.Props.C05
 #print axioms truthy_bool
 #print axioms truthy_int
@@ -41,3 +42,13 @@ open JetVerif.Props.C05
 #print axioms JetVerif.Props.C05E.parsed_if_chain_renders_the_first_truthy_text
 #print axioms JetVerif.Props.C05E.parsed_if_chain_all_falsy_renders_else_text
 #print axioms JetVerif.Props.C05E.parsed_if_chain_unbound_identifier_fails
+#print axioms JetVerif.Props.C05R.range_runs_its_body_once_per_element_in_order
+#print axioms JetVerif.Props.C05R.range_over_empty_runs_else
+#print axioms JetVerif.Props.C05R.range_over_empty_without_else_writes_nothing
+#print axioms JetVerif.Props.C05R.else_is_ignored_when_there_are_elements
+#print axioms JetVerif.Props.C05R.range_two_variables_binds_index_and_value
+#print axioms JetVerif.Props.C05R.range_one_variable_binds_index_and_dot
+#print axioms JetVerif.Props.C05R.range_stops_when_the_body_returns
+#print axioms JetVerif.Props.C05R.range_puts_dot_back
+#print axioms JetVerif.Props.C05R.parsed_range_renders_body_n_times
+#print axioms JetVerif.Props.C05R.parsed_range_two_variables_renders_body_n_times
